@@ -239,12 +239,21 @@ class ALazy:
                 if n > 4096:
                     raise AbsRaise('NonTermination', node)
                 cb(v)
+        if self.kind == 'repeat_forever':
+            n = 0
+            while True:
+                n += 1
+                if n > 4096:
+                    raise AbsRaise('NonTermination', node)
+                cb(self.src)
         self.done = True
         counter = [0]
 
         def step(v):
             if self.kind == 'map':
                 cb(interp.apply(self.fn, [v], {}, node))
+            elif self.kind == 'starmap':
+                cb(interp.apply(self.fn, interp.iterate(v, node, keep_vars=True), {}, node))
             elif self.kind in ('filter', 'filterfalse'):
                 keep = interp.truth(interp.apply(self.fn, [v], {}, node) if self.fn is not None else v, node)
                 if keep == (self.kind == 'filter'):
@@ -363,6 +372,53 @@ def handler_names(h: ast.ExceptHandler):
     if isinstance(h.type, ast.Tuple):
         return [unparse(x) for x in h.type.elts]
     return [unparse(h.type)]
+
+
+class AEnumInt(int):
+    """A member of an IntEnum / IntFlag class of the program: an int that also has .name and .value."""
+    def __new__(cls, value, name='?', enum_name='?'):
+        o = int.__new__(cls, value)
+        o._name_, o._enum_ = name, enum_name
+        return o
+
+    @property
+    def value(self):
+        return int(self)
+
+    @property
+    def name(self):
+        return self._name_
+
+    def __repr__(self):
+        return f'<{self._enum_}.{self._name_}: {int(self)}>'
+
+
+def enum_kind(interp, cls):
+    """'int' for IntEnum / IntFlag classes (members behave as ints), 'other' for other Enum classes, None otherwise."""
+    for k in interp.p.mro(cls):
+        for b in k.bases:
+            if isinstance(b, str):
+                nm = b.split('.')[-1]
+                if nm in ('IntEnum', 'IntFlag'):
+                    return 'int'
+                if nm in ('Enum', 'Flag', 'StrEnum'):
+                    return 'other'
+    return None
+
+
+def enum_members(interp, cls):
+    out = {}
+    for k in reversed(interp.p.mro(cls)):
+        for name, expr in k.attrs.items():
+            if name.startswith('_'):
+                continue
+            try:
+                v = interp.f.eval(expr, {}, k.module)
+            except Unfoldable:
+                continue
+            if isinstance(v, int) and not isinstance(v, bool):
+                out[name] = AEnumInt(v, name, cls.name)
+    return out
 
 
 class ANTClass:
@@ -503,6 +559,71 @@ def nt_items(obj):
     if isinstance(obj, AObj) and '__fields__' in obj.attrs:
         return [obj.attrs[f] for f in obj.attrs['__fields__']]
     return None
+
+
+class AExitStack:
+    """contextlib.ExitStack: context managers entered through it are left, last first, when the stack is."""
+    def __init__(self):
+        self.exits = []
+
+    def __repr__(self):
+        return f'<ExitStack {len(self.exits)}>'
+
+    def absint_getattr(self, interp, name, node):
+        if name in ('enter_context', 'callback', 'close', 'push', 'pop_all'):
+            return ('mockmethod', self, name)
+        raise AbsRaise('AttributeError', node, implicit=True, msg=name)
+
+    def absint_method(self, interp, name, args, kwargs, node):
+        if name == 'enter_context' and len(args) == 1:
+            cm = args[0]
+            if isinstance(cm, tuple) and len(cm) == 2 and cm[0] == 'nullctx':
+                return cm[1]
+            if isinstance(cm, tuple) and len(cm) == 2 and cm[0] == 'closingctx':
+                self.exits.append(('call', lambda: interp.method_call(cm[1], 'close', [], {}, node)))
+                return cm[1]
+            if isinstance(cm, AObj) and cm.cls is not None and interp.p.lookup_method(cm.cls, '__enter__')[1] is not None:
+                o1, enter = interp.p.lookup_method(cm.cls, '__enter__')
+                o2, exit_ = interp.p.lookup_method(cm.cls, '__exit__')
+                got = interp.call_function(enter, [cm], {}, node)
+                self.exits.append(('exit', cm, exit_))
+                return got
+            if isinstance(cm, Opaque):
+                raise Unsupported(f'ExitStack.enter_context({cm!r})')
+            # file doubles, lock doubles...: entering gives the object itself
+            log_event('with-enter', cm)
+            self.exits.append(('double', cm))
+            return cm
+        if name == 'callback' and args:
+            f, rest = args[0], list(args[1:])
+            self.exits.append(('call', lambda: interp.apply(f, rest, dict(kwargs), node)))
+            return f
+        if name == 'close' and not args:
+            self.unwind(interp, node, None)
+            return None
+        raise Unsupported(f'ExitStack.{name}')
+
+    def unwind(self, interp, node, exc):
+        """Leave everything entered, last first; returns True when an __exit__ swallowed the exception."""
+        swallowed = False
+        while self.exits:
+            ent = self.exits.pop()
+            if ent[0] == 'call':
+                ent[1]()
+            elif ent[0] == 'double':
+                log_event('with-exit', ent[1])
+                closer = getattr(ent[1], 'absint_exit', None)
+                if closer is not None:
+                    closer(interp, node)
+            else:
+                cm, exit_ = ent[1], ent[2]
+                if exc is not None and not swallowed:
+                    r = interp.call_function(exit_, [cm, exc.exc, AExcValue(exc.exc, getattr(exc, 'attrs', None) or {}), Opaque('traceback')], {}, node)
+                    if r is not None and r is not False and (not _is_concrete(r) or r):
+                        swallowed = True
+                else:
+                    interp.call_function(exit_, [cm, None, None, None], {}, node)
+        return swallowed
 
 
 class ASuper:
@@ -701,7 +822,7 @@ class AbsInt:
                 self.run_generator(g, cb)
                 return None
             return g
-        log_event('enter', info.qname, args[0] if args else None, info, closure, self.depth)
+        log_event('enter', info.qname, args[0] if args else None, info, closure, self.depth, args[1] if len(args) > 1 else None)
         stack.append(key)
         try:
             self.ex_block(fn.body, env, info.module)
@@ -772,6 +893,9 @@ class AbsInt:
                 except TypeError:
                     raise AbsRaise('TypeError', st, implicit=True)
                 self.assign(st.target, res, env, m)
+            elif isinstance(cur, ADict) and isinstance(st.op, ast.BitOr) and isinstance(v, (ADict, dict)):
+                self.method(cur, 'update', [v], {}, st)          # d |= other updates d in place (aliases see it, stores are logged)
+                self.assign(st.target, cur, env, m)
             elif isinstance(cur, AList) and cur.kind in ('list', 'bytearray') and isinstance(st.op, ast.Add) \
                     and not isinstance(st.target, ast.Attribute):
                 cur.items.extend(self.iterate(v, st, keep_vars=True))
@@ -937,6 +1061,18 @@ class AbsInt:
         else:
             raise Unsupported(f'abstract interpreter: unsupported statement {type(st).__name__} at line {st.lineno}')
 
+    def method_call(self, base, name, args, kwargs, node):
+        """base.name(*args) for an already evaluated receiver."""
+        r = self.method(base, name, list(args), dict(kwargs), node)
+        if r is not _NO:
+            return r
+        e = ast.Attribute(value=ast.Name(id='__mc_base__', ctx=ast.Load()), attr=name, ctx=ast.Load())
+        if node is not None:
+            ast.copy_location(e, node)
+            ast.fix_missing_locations(e)
+        f = self._v_Attribute(e, {'__mc_base__': base}, None)
+        return self.apply(f, list(args), dict(kwargs), node)
+
     def match_pattern(self, pat, subject, env, m):
         """Structural pattern matching (PEP 634) on abstract values; captures are bound in env."""
         if isinstance(pat, ast.MatchValue):
@@ -962,10 +1098,43 @@ class AbsInt:
                 if isinstance(subject, Opaque):
                     raise Unsupported(f'sequence pattern on {subject!r} at line {pat.lineno}')
                 return False
-            if al.has_var():
-                raise Unsupported(f'sequence pattern on a sequence of symbolic length at line {pat.lineno}')
             items = list(al.items)
             stars = [i for i, p_ in enumerate(pat.patterns) if isinstance(p_, ast.MatchStar)]
+            if al.has_var():
+                # a sequence with a run of unknown length in the middle: the fixed sub-patterns must be served by its concrete ends
+                if not stars:
+                    raise Unsupported(f'sequence pattern without a star on a sequence of symbolic length at line {pat.lineno}')
+                k = stars[0]
+                nb, na = k, len(pat.patterns) - k - 1
+                front = 0
+                while front < len(items) and not isinstance(items[front], SeqVar):
+                    front += 1
+                back = 0
+                while back < len(items) and not isinstance(items[len(items) - 1 - back], SeqVar):
+                    back += 1
+                if nb > front or na > back:
+                    # an element has to come out of the symbolic run itself: it exists if the run is not empty (decided or forked);
+                    # the run keeps standing for "any number of further items"
+                    if nb <= front and na == back + 1 and isinstance(items[len(items) - 1 - back], SeqVar):
+                        v_ = items[len(items) - 1 - back]
+                        if v_.minlen >= 1 or self.decide(pat, f'symbolic run {v_.name} is not empty'):
+                            items = items[:len(items) - back] + [AV.of_sym(v_.sym)] + items[len(items) - back:]
+                        else:
+                            items = items[:len(items) - 1 - back] + items[len(items) - back:]
+                        return self.match_pattern(pat, AList(items, al.kind), env, m)
+                    if na <= back and nb == front + 1 and isinstance(items[front], SeqVar):
+                        v_ = items[front]
+                        if v_.minlen >= 1 or self.decide(pat, f'symbolic run {v_.name} is not empty'):
+                            items = items[:front] + [AV.of_sym(v_.sym)] + items[front:]
+                        else:
+                            items = items[:front] + items[front + 1:]
+                        return self.match_pattern(pat, AList(items, al.kind), env, m)
+                    raise Unsupported(f'sequence pattern reaches into the symbolic part of a sequence at line {pat.lineno}')
+                ok = all(self.match_pattern(p_, x, env, m) for p_, x in zip(pat.patterns[:k], items)) and \
+                    all(self.match_pattern(p_, x, env, m) for p_, x in zip(pat.patterns[k + 1:], items[len(items) - na:]))
+                if ok and pat.patterns[k].name is not None:
+                    env[pat.patterns[k].name] = AList(items[nb:len(items) - na], 'list')
+                return ok
             if not stars:
                 if len(items) != len(pat.patterns):
                     return False
@@ -997,6 +1166,21 @@ class AbsInt:
             return True
         if isinstance(pat, ast.MatchClass):
             cls = self.ev(pat.cls, env, m)
+            if isinstance(cls, tuple) and len(cls) == 2 and cls[0] == 'excclass':
+                if not isinstance(subject, AExcValue):
+                    if isinstance(subject, Opaque):
+                        raise Unsupported(f'class pattern {cls[1]} on {subject!r} at line {pat.lineno}')
+                    return False
+                if not exc_is(subject.exc, cls[1], self.extra_exc_parents):
+                    return False
+                if pat.patterns:
+                    raise Unsupported('positional sub-patterns on an exception')
+                for a_, p_ in zip(pat.kwd_attrs, pat.kwd_patterns):
+                    if a_ not in subject.attrs:
+                        raise Unsupported(f'attribute {a_} of the exception double is not scripted')
+                    if not self.match_pattern(p_, subject.attrs[a_], env, m):
+                        return False
+                return True
             fake = ast.copy_location(ast.Call(func=ast.Name(id='isinstance', ctx=ast.Load()),
                                               args=[ast.Name(id='__subject__', ctx=ast.Load()), pat.cls], keywords=[]), pat)
             ast.fix_missing_locations(fake)
@@ -1081,6 +1265,31 @@ class AbsInt:
                 self._cm_stack.pop()
             return
         v = self.ev(item.context_expr, env, m)
+        if isinstance(v, tuple) and len(v) == 2 and v[0] in ('nullctx', 'closingctx'):
+            if item.optional_vars is not None:
+                self.assign(item.optional_vars, v[1], env, m)
+            if v[0] == 'nullctx':
+                self.ex_with(st, i + 1, env, m)
+                return
+            try:
+                self.ex_with(st, i + 1, env, m)
+            finally:
+                self.method_call(v[1], 'close', [], {}, item.context_expr)
+            return
+        if isinstance(v, AExitStack):
+            if item.optional_vars is not None:
+                self.assign(item.optional_vars, v, env, m)
+            try:
+                self.ex_with(st, i + 1, env, m)
+            except AbsRaise as e:
+                if v.unwind(self, item.context_expr, e):
+                    return
+                raise
+            except (_Ret, _Brk, _Cont, _GenEscape, _NextFound):
+                v.unwind(self, item.context_expr, None)
+                raise
+            v.unwind(self, item.context_expr, None)
+            return
         if isinstance(v, AObj) and v.cls is not None:
             o1, enter = self.p.lookup_method(v.cls, '__enter__')
             o2, exit_ = self.p.lookup_method(v.cls, '__exit__')
@@ -1159,6 +1368,27 @@ class AbsInt:
                 log_event('global-store', m.name, t.id, v)
                 return
             env[t.id] = v
+        elif isinstance(t, (ast.Tuple, ast.List)) and any(isinstance(x, ast.Starred) for x in t.elts):
+            # a, *rest, z = value
+            items = self.iterate(v, t, keep_vars=True)
+            k = next(i for i, x in enumerate(t.elts) if isinstance(x, ast.Starred))
+            nb, na = k, len(t.elts) - k - 1
+            if any(isinstance(x, SeqVar) for x in items):
+                front = 0
+                while front < len(items) and not isinstance(items[front], SeqVar):
+                    front += 1
+                back = 0
+                while back < len(items) and not isinstance(items[len(items) - 1 - back], SeqVar):
+                    back += 1
+                if nb > front or na > back:
+                    raise Unsupported(f'starred assignment reaches into the symbolic part of a sequence at line {t.lineno}')
+            elif len(items) < nb + na:
+                raise AbsRaise('ValueError', t, implicit=True, msg='not enough values to unpack')
+            for x, y in zip(t.elts[:k], items):
+                self.assign(x, y, env, m)
+            self.assign(t.elts[k].value, AList(items[nb:len(items) - na], 'list'), env, m)
+            for x, y in zip(t.elts[k + 1:], items[len(items) - na:] if na else []):
+                self.assign(x, y, env, m)
         elif isinstance(t, (ast.Tuple, ast.List)):
             items = self.iterate(v, t)
             if len(items) != len(t.elts):
@@ -1399,6 +1629,13 @@ class AbsInt:
         if isinstance(base, ClassRef):
             v = self.p.class_attr(base.info, e.attr)
             if v is not None:
+                ek = enum_kind(self, base.info)
+                if ek == 'int' and not e.attr.startswith('_'):
+                    mem = enum_members(self, base.info)
+                    if e.attr in mem:
+                        return mem[e.attr]
+                elif ek == 'other' and not e.attr.startswith('_'):
+                    raise Unsupported(f'Enum class {base.info.name} whose members are not ints is not modelled')
                 try:
                     return self.f.eval(v, {}, base.info.module)
                 except Unfoldable:
@@ -1410,11 +1647,16 @@ class AbsInt:
                 return FuncRef(fn)
             return Opaque(e.attr)
         if isinstance(base, ExtRef):
+            if base.name == 'math' and e.attr in ('inf', 'nan', 'pi', 'e', 'tau'):
+                import math as _math            # named float constants
+                return getattr(_math, e.attr)
             if base.name == 'errno' and e.attr.isupper():
                 import errno as _errno          # a table of integer constants of the platform, nothing else
                 if isinstance(getattr(_errno, e.attr, None), int):
                     return getattr(_errno, e.attr)
             return ExtRef(f'{base.name}.{e.attr}')
+        if isinstance(base, AEnumInt) and e.attr in ('value', 'name'):
+            return int(base) if e.attr == 'value' else base.name
         if hasattr(base, 'absint_getattr'):
             return base.absint_getattr(self, e.attr, e)
         if _is_concrete(base) and not isinstance(base, (list, dict, set)) and not hasattr(base, e.attr):
@@ -1519,6 +1761,11 @@ class AbsInt:
         return self.binop(e.op, self.ev(e.left, env, m), self.ev(e.right, env, m), e)
 
     def binop(self, op, a, b, node):
+        if isinstance(op, ast.BitOr) and isinstance(a, (ADict, dict)) and isinstance(b, (ADict, dict)):
+            # dict union (3.9+): a new dict, keys of the left operand first, values of the right operand win
+            d = dict(a.d if isinstance(a, ADict) else a)
+            d.update(b.d if isinstance(b, ADict) else b)
+            return ADict(d)
         # a pure unsigned symbol combined with a float or a polynomial: continue in the polynomial domain
         if (isinstance(a, AV) and (isinstance(b, (float, Poly)))) or (isinstance(b, AV) and isinstance(a, (float, Poly))):
             def conv(x):
@@ -1831,7 +2078,10 @@ class AbsInt:
                 return self.decide(node, 'truth')
         if isinstance(v, (FuncRef, ClassRef, ExtRef, AGen, ALazy)):
             return True
-        if isinstance(v, tuple) and v and v[0] in ('bound', 'closure', 'lambda', 'attrgetter', 'itemgetter'):
+        if isinstance(v, tuple) and v and v[0] in ('bound', 'closure', 'lambda', 'attrgetter', 'itemgetter', 'partial', 'methodcaller', 'mockmethod',
+                                                   'structmethod', 'objectmethod', 'ntmake', 'ntmethod', 'excclass', 'repattern'):
+            return True         # callables and pattern objects are true
+        if isinstance(v, (ANTClass, AStruct, ASuper, AExcValue)):
             return True
         if isinstance(v, AList):
             if v.kind == 'deque':
@@ -2415,6 +2665,16 @@ class AbsInt:
             key = f.info.qname
             if key in self.summaries:
                 return self.summaries[key](self, args, kwargs, node)
+            ek = enum_kind(self, f.info)
+            if ek == 'int' and len(args) == 1 and not kwargs:
+                if isinstance(args[0], int):
+                    for mem in enum_members(self, f.info).values():
+                        if int(mem) == int(args[0]):
+                            return mem
+                    raise AbsRaise('ValueError', node, implicit=True, msg=f'{args[0]!r} is not a valid {f.info.name}')
+                raise Unsupported(f'{f.info.name}(symbolic value)')
+            if ek == 'other':
+                raise Unsupported(f'Enum class {f.info.name} whose members are not ints is not modelled')
             obj = AObj(f.info, {}, name=f.info.name)
             o, init = self.p.lookup_method(f.info, '__init__')
             dcs = dataclass_spec(self, f.info) if init is None else None
@@ -2452,6 +2712,10 @@ class AbsInt:
                 import itertools as _it
                 cols = [self.iterate(a, node) for a in args] * kwargs.get('repeat', 1)
                 return AList([AList(list(t), 'tuple') if not all(_is_concrete(x) for x in t) else tuple(t) for t in _it.product(*cols)], 'list')
+            if key in ('itertools.repeat', 'repeat') and len(args) == 1 and not kwargs:
+                return ALazy('repeat_forever', None, args[0])
+            if key in ('itertools.starmap', 'starmap') and len(args) == 2 and isinstance(args[1], (ALazy, AGen)):
+                return ALazy('starmap', args[0], args[1])
             if key in ('itertools.starmap', 'starmap') and len(args) == 2:
                 return AList([self.apply(args[0], self.iterate(t, node, keep_vars=True), {}, node)
                               for t in self.iterate(args[1], node, keep_vars=True)], 'list')
@@ -2488,6 +2752,12 @@ class AbsInt:
                 for it in items:
                     acc = self.apply(args[0], [acc, it], {}, node)
                 return acc
+            if key in ('contextlib.nullcontext', 'nullcontext') and len(args) <= 1 and not kwargs:
+                return ('nullctx', args[0] if args else None)
+            if key in ('contextlib.closing', 'closing') and len(args) == 1 and not kwargs:
+                return ('closingctx', args[0])
+            if key in ('contextlib.ExitStack', 'ExitStack') and not args and not kwargs:
+                return AExitStack()
             if key in ('functools.partial', 'partial') and args:
                 return ('partial', args[0], (tuple(args[1:]), dict(kwargs)))
             if key in ('operator.methodcaller', 'methodcaller') and args and isinstance(args[0], str):
@@ -2895,6 +3165,8 @@ class AbsInt:
         return Opaque('len')
 
     def method(self, base, name, args, kwargs, node):
+        if isinstance(base, AExitStack):
+            return base.absint_method(self, name, list(args), dict(kwargs), node)
         if isinstance(base, AStruct):
             return base.call(self, name, list(args), dict(kwargs), node)
         if isinstance(base, tuple) and len(base) == 3 and base[0] == 'repattern':
@@ -3277,7 +3549,7 @@ def _concretize(v, memo):
             return v
     if isinstance(v, list):
         return [concretize(x, memo) for x in v]
-    if isinstance(v, tuple) and not (v and v[0] in ('closure', 'bound', 'lambda', 'attrgetter', 'itemgetter', 'attr', 'mockmethod', 'signed', 'repattern', 'objectmethod', 'ntmake', 'ntmethod', 'excclass', 'partial', 'methodcaller')):
+    if isinstance(v, tuple) and not (v and v[0] in ('closure', 'bound', 'lambda', 'attrgetter', 'itemgetter', 'attr', 'mockmethod', 'signed', 'repattern', 'objectmethod', 'ntmake', 'ntmethod', 'excclass', 'partial', 'methodcaller', 'nullctx', 'closingctx')):
         return tuple(concretize(x, memo) for x in v)
     if isinstance(v, dict):
         return {k: concretize(x, memo) for k, x in v.items()}
